@@ -789,10 +789,20 @@ class Capture(object):
         return None
 
 
+def attr_values(inst, depth=2):
+    """attribute values of an evaluated instance and of the evaluated instances it holds"""
+    out = []
+    for v in inst._attrs.values():
+        out.append(v)
+        if isinstance(v, Instance) and depth > 0:
+            out.extend(attr_values(v, depth - 1))
+    return out
+
+
 def name_id_map(sim, wn):
     """the simulator's node numbering, found by content: the dict that maps every node name to a distinct id in 0..n-1"""
     names = set(wn.nodes.keys())
-    for v in sim._attrs.values():
+    for v in attr_values(sim):
         if isinstance(v, dict) and set(v.keys()) == names and sorted(v.values()) == list(range(len(names))):
             return dict(v)
     raise ExtractError("WNTRSimulator: no attribute maps every node name to an id in 0..n-1 after construction")
@@ -905,6 +915,11 @@ def run(repo, chk):
     chk.fn(ig, ug, gi, rs)
     LS = link_status_enum(repo)
     sig, arrays = c_signature(repo)
+    uf = repo.func(HYD, "update_model_for_isolated_junctions_and_links")
+    chk.fn(uf)
+    uparams = [a.arg for a in uf.args.args]
+    if len(uparams) < 5 or uf.args.vararg or uf.args.kwarg:
+        raise ExtractError("update_model_for_isolated_junctions_and_links: expected (model, wn, updater, previous junctions, previous links, new junctions, new links), found %s" % uparams)
 
     # ---------------------------------------------------------------- scenarios: R-C09-1 graph encoding, R-C09-2 caller, R-C09-3 flag life cycle
     captured = []          # valid snapshots, reused as a graph family for the C++ search
@@ -923,7 +938,14 @@ def run(repo, chk):
         model_calls = []
 
         def model_update(*args, **kwargs):
-            model_calls.append((args, kwargs, {k: v._is_isolated for k, v in wn.nodes.items()}, {k: v._is_isolated for k, v in wn.links.items()}))
+            # bound by the signature of the real function, so positional and keyword calls are the same thing
+            if len(args) > len(uparams) or any(k not in uparams for k in kwargs) or any(k in uparams[:len(args)] for k in kwargs):
+                raise ProgramError(TypeError("update_model_for_isolated_junctions_and_links() called with %d positional and keywords %s; parameters are %s" % (len(args), sorted(kwargs), uparams)))
+            bound = dict(zip(uparams, args))
+            bound.update(kwargs)
+            if len(bound) != len(uparams):
+                raise ProgramError(TypeError("update_model_for_isolated_junctions_and_links() missing arguments %s" % [p_ for p_ in uparams if p_ not in bound]))
+            model_calls.append(([bound[p_] for p_ in uparams], {k: v._is_isolated for k, v in wn.nodes.items()}, {k: v._is_isolated for k, v in wn.links.items()}))
         world, state = make_world(repo, LS, {
             "wntr.sim.network_isolation.check_for_isolated_junctions": cap,
             "wntr.sim.network_isolation.network_isolation.check_for_isolated_junctions": cap,
@@ -939,7 +961,7 @@ def run(repo, chk):
             raise ExtractError("WNTRSimulator is not a class of %s" % CORE)
         n2i = name_id_map(sim, wn)
         i2n = {i: k for k, i in n2i.items()}
-        trackers = [v for v in sim._attrs.values() if isinstance(v, MTracker)]
+        trackers = [v for v in attr_values(sim) if isinstance(v, MTracker)]
         if len(trackers) != 1:
             raise ExtractError("WNTRSimulator: expected exactly one ControlChangeTracker attribute after construction, found %d" % len(trackers))
         tracker = trackers[0]
@@ -1023,14 +1045,14 @@ def run(repo, chk):
             chk.expect(set(exp_l) <= set(fl), "R-C09-3", "[%s] every link attached to an isolated junction (inlet or outlet) is flagged isolated" % tag, loc(gi),
                        found="not flagged: %s" % sorted(set(exp_l) - set(fl)))
             mc = model_calls[nmodel:]
-            ok_model = len(mc) == 1 and not mc[0][1] and len(mc[0][0]) >= 4
+            ok_model = len(mc) == 1
             found = "%d calls" % len(mc)
             if ok_model:
                 a = mc[0][0]
                 last4 = [sorted(x) if isinstance(x, (OrderedSet, set, list, tuple, frozenset)) else x for x in a[-4:]]
                 want4 = [sorted(prev[0]), sorted(prev[1]), sorted(exp_j), sorted(exp_l)]
-                flags_final = (not stale and sorted(k for k, v in mc[0][2].items() if v) == sorted(exp_j) and sorted(k for k, v in mc[0][3].items() if v) == sorted(exp_l)) or \
-                    (stale and set(exp_j) <= {k for k, v in mc[0][2].items() if v} and set(exp_l) <= {k for k, v in mc[0][3].items() if v})
+                flags_final = (not stale and sorted(k for k, v in mc[0][1].items() if v) == sorted(exp_j) and sorted(k for k, v in mc[0][2].items() if v) == sorted(exp_l)) or \
+                    (stale and set(exp_j) <= {k for k, v in mc[0][1].items() if v} and set(exp_l) <= {k for k, v in mc[0][2].items() if v})
                 ok_model = last4 == want4 and flags_final and any(x is wn for x in a[:-4])
                 found = "sets %s; flags final at the call: %s" % (last4, flags_final)
             chk.expect(ok_model, "R-C09-3", "[%s] the model rows are rebuilt once, from (previous sets, new sets), after the flags are final" % tag, loc(gi),
@@ -1155,8 +1177,6 @@ def run(repo, chk):
     chk.floor("R-C09-2", 8)
 
     # ---------------------------------------------------------------- R-C09-3 model update for the symmetric difference
-    uf = repo.func(HYD, "update_model_for_isolated_junctions_and_links")
-    chk.fn(uf)
     wn = MockWN(LS, NODES, LINKS)
     world, _ = make_world(repo, LS)
     fn_u = world.function(HYD, "update_model_for_isolated_junctions_and_links")
@@ -1324,7 +1344,15 @@ def run(repo, chk):
         fn = repo.func(MODEL, "LinkRegistry." + meth)
         chk.fn(fn)
         us = [a for a in walk(fn) if isinstance(a, ast.Assign) and isinstance(a.targets[0], ast.Attribute) and a.targets[0].attr == "_user_status"]
-        okus = bool(us) and all("initial_status" in unparse(a.value) for a in us)
+
+        def origin(v, depth=0):
+            """text of the value with temporaries replaced by their single reaching assignment"""
+            if isinstance(v, ast.Name) and depth < 4:
+                defs = [a for a in walk(fn) if isinstance(a, ast.Assign) and len(a.targets) == 1 and isinstance(a.targets[0], ast.Name) and a.targets[0].id == v.id]
+                if len(defs) == 1:
+                    return origin(defs[0].value, depth + 1)
+            return unparse(v)
+        okus = bool(us) and all("initial_status" in origin(a.value) for a in us)
         chk.expect(okus, "R-C09-5", "LinkRegistry.%s starts the link's run-time status from initial_status" % meth, loc(fn),
                    "the element keeps the constructor default (Opened / Active) until reset_initial_values: a pump or valve created with initial_status='CLOSED' is simulated open and the "
                    "junctions behind it are served instead of zeroed (add_pipe sets _user_status, its siblings must too)", expected="<link>._user_status = initial_status",
@@ -1407,4 +1435,20 @@ WITNESSES = [
          new="            closed = status == LinkStatus.Closed\n            if link._is_isolated or closed:\n                con = aml.Constraint(f)\n            else:\n                eps = 1e-5"),
     dict(name="quiet-builder-not-isolated-as-comparison", file=CON, silent=True,
          old="            if not node._is_isolated:\n                expr = m.expected_demand[node_name]", new="            if node._is_isolated == False:\n                expr = m.expected_demand[node_name]"),
+    dict(name="quiet-model-update-by-keyword-and-symmetric-difference-operator", file=HYD, silent=True,
+         old="    j1 = prev_isolated_junctions - isolated_junctions\n    j2 = isolated_junctions - prev_isolated_junctions\n    j = j1.union(j2)\n    for _j in j:\n        junction = wn.get_node(_j)\n"
+             "        model_updater.update(m, wn, junction, '_is_isolated')\n\n    l1 = prev_isolated_links - isolated_links\n    l2 = isolated_links - prev_isolated_links\n    l = l1.union(l2)\n"
+             "    for _l in l:\n        link = wn.get_link(_l)\n        model_updater.update(m, wn, link, '_is_isolated')\n",
+         new="    changed = [(wn.get_node, prev_isolated_junctions ^ isolated_junctions), (wn.get_link, prev_isolated_links ^ isolated_links)]\n    for getter, names in changed:\n"
+             "        for name in names:\n            model_updater.update(m, wn, getter(name), attr='_is_isolated')\n"),
+    dict(name="quiet-search-hands-sets-over-by-keyword", file=CORE, silent=True,
+         old="        wntr.sim.hydraulics.update_model_for_isolated_junctions_and_links(self._model, self._wn, self._model_updater,\n"
+             "                                                                          self._prev_isolated_junctions,\n"
+             "                                                                          self._prev_isolated_links,\n"
+             "                                                                          isolated_junctions, isolated_links)\n"
+             "        self._prev_isolated_junctions = isolated_junctions\n        self._prev_isolated_links = isolated_links\n",
+         new="        previous = dict(prev_isolated_junctions=self._prev_isolated_junctions, prev_isolated_links=self._prev_isolated_links)\n"
+             "        self._prev_isolated_junctions, self._prev_isolated_links = isolated_junctions, isolated_links\n"
+             "        wntr.sim.hydraulics.update_model_for_isolated_junctions_and_links(self._model, self._wn, model_updater=self._model_updater,\n"
+             "                                                                          isolated_links=isolated_links, isolated_junctions=isolated_junctions, **previous)\n"),
 ]
